@@ -252,7 +252,7 @@ func (v *Env) evalForall(guard *Term, x *SExpr) *Term {
 				fam = "elem:" + typeName(elem)
 			}
 			p0, c0 := ptr, c
-			qts = append(qts, qtrig{family: fam, solve: func(addr *Term) *Term { return SubNW(SubNW(addr, p0), c0) }})
+			qts = append(qts, qtrig{family: fam, base: p0, solve: func(addr *Term) *Term { return SubNW(SubNW(addr, p0), c0) }})
 		}
 		if len(qts) == 0 {
 			v.fail("forall %s: no usable trigger for %s", x, name)
